@@ -118,13 +118,15 @@ func buildCgo(ctx *context, pkg *aPackage, files []*ast.File, externs []string, 
 		}, verbose)
 	}
 	cgoSymbols := collectCgoSymbols(externs)
-	for _, preamble := range preambles {
-		tmpFile, err := os.CreateTemp("", "-cgo-*.c")
+	for i, preamble := range preambles {
+		// The base name of the C file ends up in the object (STT_FILE symbol), so it
+		// must not change between builds: a fixed name inside a temporary directory.
+		tmpDir, err := os.MkdirTemp("", "llgo-cgo-")
 		if err != nil {
-			return nil, nil, fmt.Errorf("failed to create temp file: %v", err)
+			return nil, nil, fmt.Errorf("failed to create temp dir: %v", err)
 		}
-		tmpName := tmpFile.Name()
-		defer os.Remove(tmpName)
+		defer os.RemoveAll(tmpDir)
+		tmpName := filepath.Join(tmpDir, fmt.Sprintf("-cgo-%d.c", i))
 		code := cgoHeader + "\n\n" + preamble.src
 		externDecls, err := genExternDeclsByClang(pkg, code, cflags, cgoSymbols, verbose)
 		if err != nil {
